@@ -32,8 +32,10 @@ Theorem C03_file_agree : forall o boxes, o_ism o = false -> o_lazy o = false ->
 Proof. exact file_agree. Qed.
 Print Assumptions C03_file_agree.
 
-(* every canonical byte string (compact headers, size = 8 + body; any nesting of container kinds; opaque leaves whose
-   two decoders accept their canonical payload) is accepted by DecodeBox AND by DecodeBoxSR, and both build the same tree.
+(* every canonical byte string (compact headers, size = 8 + body, or - CLarge - the 16-byte largesize header, size field 1 and
+   64-bit size 16 + body, which MdatBox.Encode keeps; any nesting of container kinds; opaque leaves whose
+   two decoders accept their canonical payload) is accepted by DecodeBox AND by DecodeBoxSR, and both build the same tree
+   (same Size() for every box, hence the same start position for everything that follows).
    The two header decoders and the two separately written child loops are the C04 models; fuel = len + 1. *)
 Theorem C03_decode_agree_canonical : forall ld c, leaf_ok ld -> cwf ld c -> fits c ->
   fst (box_sr ld (cenc c)) = Ok (erase c) /\ fst (box_r ld (cenc c)) = Ok (BBox (erase c)).
@@ -58,6 +60,12 @@ Theorem C03_std_canon_leaf : forall nm p, std_canon_ok nm p -> canon_leaf std_le
 Proof. exact std_canon_leaf. Qed.
 Print Assumptions C03_std_canon_leaf.
 
+(* mdat behind a 16-byte largesize header (payload below 4 GiB) is a canonical large leaf: both DecodeMdat and DecodeMdatSR
+   carry hdr.Hdrlen > 8 over into LargeSize, so both report Size() = 16 + len(payload) *)
+Theorem C03_std_canon_large : forall nm p, std_large_ok nm p -> canon_large std_leaves nm p.
+Proof. exact std_canon_large. Qed.
+Print Assumptions C03_std_canon_large.
+
 (* the two dispatch tables register the same box types (regenerated from /repo on every run) *)
 Theorem C03_registry : keys_decoders = keys_decoders_sr.
 Proof. exact registry_equal. Qed.
@@ -80,15 +88,23 @@ Example ex_file_agree :
             [TMdat 4; TMoof [mkTraf true None None [TrunOffset]]; TStyp] true).
 Proof. vm_compute. reflexivity. Qed.
 
-Example ex_ctree : ctree := CNode name_moof [CNode name_traf []; CLeaf name_free [7]%N; CLeaf name_mdat [1;2;3]%N].
+Example ex_ctree : ctree := CNode name_moof [CNode name_traf []; CLeaf name_free [7]%N; CLarge name_mdat [9;8]%N; CLeaf name_mdat [1;2;3]%N].
 Example ex_ctree_fits : fits ex_ctree.
 Proof. unfold fits. vm_compute. reflexivity. Qed.
 Example ex_ctree_wf : cwf std_leaves ex_ctree.
 Proof.
   cbn [cwf ex_ctree]. repeat split; try reflexivity;
+    try (apply std_canon_large; repeat split; vm_compute; reflexivity);
     apply std_canon_leaf; (split; [reflexivity|split; [reflexivity|split; [vm_compute; reflexivity|]]]);
     vm_compute; intros; try discriminate.
 Qed.
 Example ex_ctree_bytes : cenc ex_ctree =
-  [0;0;0;36;109;111;111;102; 0;0;0;8;116;114;97;102; 0;0;0;9;102;114;101;101;7; 0;0;0;11;109;100;97;116;1;2;3]%N.
+  [0;0;0;54;109;111;111;102; 0;0;0;8;116;114;97;102; 0;0;0;9;102;114;101;101;7;
+   0;0;0;1;109;100;97;116;0;0;0;0;0;0;0;18;9;8; 0;0;0;11;109;100;97;116;1;2;3]%N.
 Proof. vm_compute. reflexivity. Qed.
+(* a progressive file: free, mdat behind a largesize header, free: both byte-level file loops give sizes 9, 18, 8 *)
+Example ex_large_file : fst (file_sr std_leaves (cencs [CLeaf name_free [7]%N; CLarge name_mdat [9;8]%N; CLeaf name_free []]))
+  = Ok [Leaf name_free 9; Leaf name_mdat 18; Leaf name_free 8]
+  /\ fst (file_r std_leaves (cencs [CLeaf name_free [7]%N; CLarge name_mdat [9;8]%N; CLeaf name_free []]))
+  = Ok [Leaf name_free 9; Leaf name_mdat 18; Leaf name_free 8].
+Proof. split; vm_compute; reflexivity. Qed.
